@@ -298,9 +298,14 @@ def check_race(history, cfg):
 					allowed.add(("emit", j))
 					if not concurrent and not off_overlap:
 						possible.discard("queued")
+				elif fn < b["fn"] and 0 < (fn - b["fn"]) % HYPER < HYPER // 2:
+					# ahead in the integer view, behind modulo the hyperframe: may be reported stale
+					allowed.add(("stale", j))
 				elif fn > b["fn"]:
 					allowed.add(("stale", j))
-					if not concurrent and not off_overlap:
+					# behind only in the integer view of the hyperframe wrap: may also be kept
+					amb = (b["fn"] - fn) % HYPER < HYPER // 2
+					if not concurrent and not off_overlap and not amb:
 						possible.discard("queued")
 		if "cleared" in possible:
 			allowed.add("cleared")
